@@ -14,33 +14,35 @@ WAIT = "p_socket_io_condition_wait"
 
 
 def switch_table(fn):
-    """Map of case value -> constant returned, for a `switch (param) { case X: return C; }` function."""
-    table = {}
-    default = None
+    """Map of argument value -> constant returned by a classifying function of one integer parameter (a switch, an if-chain, part
+    of either moved into a static helper called from `default:`): the function is evaluated path by path under `param == v` for
+    every value a case label or a comparison names; the default is what an unnamed value (-1) yields."""
+    fn = fn.unit.fn(fn.name)          # helpers inlined
+    p0 = fn.param_names()[0]
+    named = set()
     for b in fn.blocks.values():
-        if not b.term or b.term.get("kind") != "switch":
-            continue
         for (to, on) in b.succs:
-            # follow straight-line successors to the first return
-            cur = to
-            seen = set()
-            val = None
-            while cur is not None and cur not in seen:
-                seen.add(cur)
-                blk = fn.blocks[cur]
-                rets = [s for s in blk.stmts if s["k"] == "ret"]
-                if rets:
-                    val = cv(rets[0].get("e"))
-                    break
-                cur = blk.succs[0][0] if len(blk.succs) == 1 else None
             if on.startswith("case:"):
                 try:
-                    table[int(on[5:])] = val
+                    named.add(int(on[5:]))
                 except ValueError:
                     pass
-            elif on == "default":
-                default = val
-    return table, default
+        for e_ in list(b.stmts) + ([b.cond] if b.cond is not None else []):
+            for n in walk(e_, elsewhere=True):
+                if n["k"] == "bin" and n["op"] in ("==", "!=") and cv(n["r"]) is not None and root_var(n["l"]) is not None:
+                    named.add(cv(n["r"]))
+
+    def result(v):
+        got = set()
+
+        def st_(st, b, i, stmt):
+            if stmt["k"] == "ret":
+                got.add(guards.eval_const(stmt.get("e"), st) if stmt.get("e") is not None else None)
+            return [guards.transfer(st, stmt)]
+        Flow(fn, [guards.add_fact(guards.EMPTY, p0, "==", v)], st_, lambda st, b, to, on: guards.edge_assume(st, b, on)).run()
+        return got.pop() if len(got) == 1 else None
+    table = dict((v, result(v)) for v in sorted(named))
+    return table, result(-1)
 
 
 def install_errno_table(prog):
